@@ -22,7 +22,9 @@ BumpIf(s, c, f) == IF c THEN [s EXCEPT ![f] = @ + 1] ELSE s
 NodeViol(e) == (IF Encode(e) # e.bytes THEN {V("bytes written for a node differ from the published format")} ELSE {})
                \cup (IF ~e.hashok THEN {V("node name is not the unpadded URL-safe base64 of the BLAKE2b-256 digest of its bytes")} ELSE {})
 LayerViol(e) == IF (IF e.kt = "int" THEN BigLayer(e.mag, e.bf, 0) ELSE BlobLayer(e.key, e.bf)) # e.layer THEN {V("layer of a key differs from the published layer function")} ELSE {}
-OrderViol(e) == IF e.res # "ok" \/ KeyCmp(e.kt, e.a, e.b) # e.cmp THEN {V("default key order differs from the published order")} ELSE {}
+WideCmp(e) == IF e.asign # e.bsign THEN (IF e.asign < e.bsign THEN -1 ELSE 1)
+              ELSE IF e.asign >= 0 THEN BytesCmp(e.amag, e.bmag) ELSE BytesCmp(e.bmag, e.amag)
+OrderViol(e) == IF e.res # "ok" \/ (IF e.wide THEN WideCmp(e) ELSE KeyCmp(e.kt, e.a, e.b)) # e.cmp THEN {V("default key order differs from the published order")} ELSE {}
 DefaultsViol(e) == IF e.bf # DefaultBranchFactor \/ e.nf # DefaultNodeFormat \/ e.legacy # LegacyNodeFormat \/ e.size # 0 \/ e.height # 0 \/ e.haslink
                    THEN {V("defaults of a new tree differ from branch factor 16 / v1.1.5binary / empty")} ELSE {}
 
